@@ -6,6 +6,7 @@ import (
 	"strings"
 
 	"go.lstv.dev/util/sem"
+	"verif/firstuse"
 	"verif/libdefaults"
 	"verif/mc"
 	"verif/oracle"
@@ -260,6 +261,7 @@ func probeNext(a nextArg) (string, string) {
 func main() {
 	mc.Main("C14", "all ordered pairs over the pre-release universe (no exclusion) plus mixed alphanumeric identifiers; all ordered pairs of a text set (valid/invalid for each helper) through every string helper; Next* on every version of the universe x boundary cores; "+
 		"non-trivial = pair of different non-empty pre-releases / pair of texts both valid for at least one helper", func(r *mc.Run) {
+		firstuse.Phase(r, map[string][]string{"sem": {"compare", "next"}})
 		r.Reset = reset
 		reset()
 		pL := mc.NewProbe(r, "laws", nil, probeLaws)
